@@ -205,7 +205,34 @@ def ob_allow_list(report):
                 q = p.clone()
                 q.pc.append(none)
                 k(q, MD.NONE)
+        def m_fin_next(ex, p, call, k):
+            # explicit `for x in peers { .. }` over the finite list: elements in order, then None
+            it = ex.deref(p, call.args[0]) if isinstance(call.args[0], Ptr) else call.args[0]
+            el = it.get_ov('elements') if isinstance(it, Sym) else None
+            if el is None:
+                return NotImplemented
+            pos = it.get_ov('pos') or 0
+            if pos >= len(el.fields):
+                return k(p, MD.NONE)
+            if isinstance(call.args[0], Ptr):
+                ex.store(p, call.args[0], it.with_ov('pos', pos + 1))
+            k(p, MD.some(el.fields[pos]))
+
+        def m_set_new(ex, p, call, k):
+            k(p, Sym(f'set{p.seq("set")}', call.retty).with_ov('elements', Agg('[]', None, (), 'array')))
+
+        def m_set_insert(ex, p, call, k):
+            s_ = ex.deref(p, call.args[0]) if isinstance(call.args[0], Ptr) else None
+            el = s_.get_ov('elements') if isinstance(s_, Sym) else None
+            x = call.args[1]
+            if el is None or not isinstance(x, z3.ExprRef) or len(el.fields) >= 8:
+                return NotImplemented
+            fresh = z3.Not(z3.Or([x == e for e in el.fields])) if el.fields else z3.BoolVal(True)
+            ex.store(p, call.args[0], s_.with_ov('elements', Agg('[]', None, tuple(el.fields) + (x,), 'array')))
+            k(p, fresh)
         models = [(r'Request::peer_id$', m_peer_id), (r'as IntoResponse>::into_response$', m_into_response), (r'Iterator>::map$', m_iter_map), (r'(HashMap|BTreeMap)::get$', m_assoc_get),
+                  (r' as Iterator>::next$', m_fin_next), (r'(HashSet|BTreeSet)::(new|with_capacity|default)$|<(\w+::)*(HashSet|BTreeSet) as Default>::default$', m_set_new),
+                  (r'(HashSet|BTreeSet)::insert$', m_set_insert),
                   (r'(HashSet|BTreeSet|Vec|slice)::contains$|HashSet::get$', m_contains), (r'(HashSet|BTreeSet|Vec|slice)::(is_empty|len)$', m_size),
                   (r'as IntoIterator>::into_iter$|Iterator>::collect$|FromIterator>::from_iter$|Iterator>::copied$|Iterator>::cloned$', m_collect)]
         ex = e2.executor('anemo-tower', models, max_depth=4, unroll=80)
